@@ -974,7 +974,7 @@ impl Error {
 
         impl fmt::Display for RenderDisplay<'_> {
             fn fmt(&self, f: &mut fmt::Formatter<'_>) -> fmt::Result {
-                fmt_error_rendered(f, self.err, self.options)
+                fmt_error_terminal_safe(f, self.err, self.options)
             }
         }
 
@@ -1479,6 +1479,34 @@ fn pick_cropped_region<'a>(
         .or_else(|| regions.first())
 }
 
+/// Render `err` and neutralise control characters in the whole report.
+///
+/// The source snippet is sanitised where it is cropped, but messages can reflect text of the
+/// input (a duplicate key, an unknown field or variant, a tag, a custom message) that was
+/// written with YAML escapes such as `"\e[31m"`. Nothing that reaches a terminal or a log may
+/// contain C0 controls (other than line feed and tab), DEL or C1 controls.
+fn fmt_error_terminal_safe(
+    f: &mut fmt::Formatter<'_>,
+    err: &Error,
+    options: RenderOptions<'_>,
+) -> fmt::Result {
+    struct Raw<'a> {
+        err: &'a Error,
+        options: RenderOptions<'a>,
+    }
+    impl fmt::Display for Raw<'_> {
+        fn fmt(&self, f: &mut fmt::Formatter<'_>) -> fmt::Result {
+            fmt_error_rendered(f, self.err, self.options)
+        }
+    }
+    let raw = Raw { err, options }.to_string();
+    if crate::de_snipped::is_terminal_snippet_clean(&raw) {
+        f.write_str(&raw)
+    } else {
+        f.write_str(&crate::de_snipped::sanitize_terminal_snippet_preserve_len(raw))
+    }
+}
+
 fn fmt_error_rendered(
     f: &mut fmt::Formatter<'_>,
     err: &Error,
@@ -1709,7 +1737,7 @@ fn search_locations_with_ancestor_fallback(
 
 impl fmt::Display for Error {
     fn fmt(&self, f: &mut fmt::Formatter<'_>) -> fmt::Result {
-        fmt_error_rendered(f, self, RenderOptions::default())
+        fmt_error_terminal_safe(f, self, RenderOptions::default())
     }
 }
 
